@@ -353,7 +353,8 @@ class BulkRtPart:
     """bulk_schedule on the real static_thread_pool under the controlled scheduler; every distinct history
     (thread ids dropped) must be an execution of the generated loop model for SOME stop point."""
     name = "bulk_rt"
-    SCENARIOS = [("pool_bulk_stop", 3), ("pool_bulk_one_worker", 8), ("pool_bulk_two_chunks", None), ("pool_bulk_empty", 0), ("pool_composed", None)]
+    # (scenario, n (None = chunk size + 2), quick DFS cap: the one-worker scenarios are exhausted below 1100 executions)
+    SCENARIOS = [("pool_bulk_stop", 3, 500), ("pool_bulk_one_worker", 8, 1100), ("pool_bulk_two_chunks", None, 500), ("pool_bulk_empty", 0, 1100), ("pool_composed", None, 500)]
 
     def run(self, tier, seed, verdict, cov, driver):
         t0 = time.time()
@@ -364,12 +365,12 @@ class BulkRtPart:
             return
         chunk = int(kv(driver.ask("ask bulk loop | const")).get("chunk", 16))
         quick = tier == "quick"
-        for scn, n in self.SCENARIOS:
+        for scn, n, cap in self.SCENARIOS:
             if n is None:
                 n = chunk + 2
-            runs = [vlib.run_rt(exe, scn, "dfs", 2 if quick else 3, 1000 if quick else 30000, seed),
-                    vlib.run_rt(exe, scn, "random", 0, 300 if quick else 5000, seed),
-                    vlib.run_rt(exe, scn, "pct", 3, 300 if quick else 5000, seed + 7)]
+            runs = [vlib.run_rt(exe, scn, "dfs", 2 if quick else 3, cap if quick else 8000, seed),
+                    vlib.run_rt(exe, scn, "random", 0, 300 if quick else 2000, seed),
+                    vlib.run_rt(exe, scn, "pct", 3, 300 if quick else 2000, seed + 7)]
             seen = {}
             for r in runs:
                 st = r["stats"]
